@@ -7,7 +7,7 @@
    compiled; `lp` is the `Loop(start_idx)` entry that get_current_loop() would find.
    The result is the chunk BEFORE Chunk::optimize (C09 relates the two).
    Executable definitions only. *)
-From TeraV Require Import Model.Value Model.Instr Model.VM Spec.Stmt Gen.Tables.
+From TeraV Require Import Model.Value Model.Instr Model.Slice Model.VM Spec.Stmt Gen.Tables.
 Local Open Scope nat_scope.
 
 (* parser.rs 323-330: loop.<field> inside a for is rewritten to a reserved variable name *)
@@ -20,6 +20,15 @@ Definition loop_field_name (f : loop_field) : str :=
   | LLength => s_loop_length
   end.
 
+(* compile_expr 352-369: the instruction of a binary operator *)
+Definition binop_instr (op : binop) : instr :=
+  match op with
+  | BMul => Mul | BDiv => Div | BFloorDiv => FloorDiv | BMod => Mod
+  | BPlus => Plus | BMinus => Minus | BPower => Power
+  | BLt => LessThan | BGt => GreaterThan | BLe => LessThanOrEqual | BGe => GreaterThanOrEqual
+  | BNe => NotEqual | BConcat => StrConcat | BIn => InOp
+  end.
+
 (* compile_kwargs: LoadConst key; value ... ; BuildMap n   (kwargs in list order) *)
 Definition compile_kws (ce : nat -> expr -> list instr) : nat -> list (str * expr) -> list instr :=
   fix go base kw :=
@@ -27,6 +36,27 @@ Definition compile_kws (ce : nat -> expr -> list instr) : nat -> list (str * exp
     | [] => []
     | (k, e) :: t => let c := LoadConst (VStr k false) :: ce (S base) e in c ++ go (base + length c) t
     end.
+
+(* the entries of an array literal (compile_expr 122-157): every entry's expression, in order *)
+Definition compile_items (ce : nat -> expr -> list instr) : nat -> list (bool * expr) -> list instr :=
+  fix go base l :=
+    match l with
+    | [] => []
+    | (_, e) :: t => let c := ce base e in c ++ go (base + length c) t
+    end.
+
+(* compile_map_entries 74-110: LoadConst key; value for a pair, the expression for a spread *)
+Definition compile_entries (ce : nat -> expr -> list instr)
+  : nat -> list (option value * expr) -> list instr :=
+  fix go base l :=
+    match l with
+    | [] => []
+    | (Some k, e) :: t => let c := LoadConst k :: ce (S base) e in c ++ go (base + length c) t
+    | (None, e) :: t => let c := ce base e in c ++ go (base + length c) t
+    end.
+
+Definition is_spread (e : option value * expr) : bool :=
+  match fst e with None => true | Some _ => false end.
 
 Fixpoint compile_expr (base : nat) (e : expr) {struct e} : list instr :=
   match e with
@@ -51,6 +81,39 @@ Fixpoint compile_expr (base : nat) (e : expr) {struct e} : list instr :=
   | EFilter e1 name kw =>
       let c1 := compile_expr base e1 in
       c1 ++ compile_kws compile_expr (base + length c1) kw ++ [BuildMap (length kw); ApplyFilter name]
+  | EBin op a b =>                     (* 414-416: left; right; the operator *)
+      let ca := compile_expr base a in
+      ca ++ compile_expr (base + length ca) b ++ [binop_instr op]
+  | ENeg e1 => compile_expr base e1 ++ [Negative]
+  | ETernary c a b =>                  (* 243-254: cond; PopJumpIfFalse else; true; Jump end; else: false; end: *)
+      let cc := compile_expr base c in
+      let b1 := base + length cc + 1 in
+      let ca := compile_expr b1 a in
+      let b2 := b1 + length ca + 1 in
+      let cb := compile_expr b2 b in
+      cc ++ [PopJumpIfFalse b2] ++ ca ++ [Jump (b2 + length cb)] ++ cb
+  | EAttrOpt e1 a => compile_expr base e1 ++ [LoadAttrOpt a]          (* 175-184 *)
+  | ESub opt e1 i =>                                                  (* 185-194 *)
+      let c1 := compile_expr base e1 in
+      c1 ++ compile_expr (base + length c1) i ++ [if opt then BinarySubscriptOpt else BinarySubscript]
+  | ESlice opt e1 a b c =>             (* 195-221: absent start/end load none, an absent step loads 1 *)
+      let c1 := compile_expr base e1 in
+      let b1 := base + length c1 in
+      let ca := match a with Some x => compile_expr b1 x | None => [LoadConst VNone] end in
+      let b2 := b1 + length ca in
+      let cb := match b with Some x => compile_expr b2 x | None => [LoadConst VNone] end in
+      let b3 := b2 + length cb in
+      let cc := match c with Some x => compile_expr b3 x | None => [LoadConst (VInt I64 1)] end in
+      c1 ++ ca ++ cb ++ cc ++ [if opt then SliceOpt else Slice]
+  | ECall name kw =>                                                  (* 334-343 *)
+      compile_kws compile_expr base kw ++ [BuildMap (length kw); CallFunction name]
+  | EArr items =>                                                     (* 122-157 *)
+      compile_items compile_expr base items
+        ++ [if existsb fst items then BuildListWithSpreads (map fst items) else BuildList (length items)]
+  | EMap entries =>                                                   (* 118-121, 74-110 *)
+      compile_entries compile_expr base entries
+        ++ [if existsb is_spread entries then BuildMapWithSpreads (map is_spread entries)
+            else BuildMap (length entries)]
   end.
 
 Definition compile_kwargs (base : nat) (kw : list (str * expr)) : list instr :=
@@ -137,13 +200,66 @@ Definition kw_map (wd : world) (kws : list (str * value)) : kwargs :=
 
 Definition no_scope : scope := Scope [] [] None [] None.
 
+(* what the interpreter does for a binary operator on (a, b), b on top of the stack
+   (interpreter.rs: math ops, comparisons, NotEqual, StrConcat, In), and for unary minus *)
+Definition binop_result (wd : world) (op : binop) (a b : value) : res value :=
+  match op with
+  | BMul | BDiv | BFloorDiv | BMod | BMinus | BPower =>
+      if negb (is_number a) then RErr ErrRender
+      else if negb (is_number b) then RErr ErrRender
+      else match w_math wd (binop_instr op) a b with ROk c => ROk c | RErr _ => RErr ErrRender end
+  | BPlus =>
+      if is_number a && is_number b
+      then match w_math wd Plus a b with ROk c => ROk c | RErr _ => RErr ErrRender end
+      else RErr ErrRender
+  | BLt | BGt | BLe | BGe =>
+      match w_cmp wd a b with
+      | Some c => ROk (VBool (ord_result (binop_instr op) c))
+      | None => RErr ErrRender
+      end
+  | BNe => ROk (VBool (negb (w_eq wd a b)))
+  | BConcat =>
+      ROk (VStr (match a, b with
+                 | VStr x _, VStr y _ => x ++ y
+                 | _, _ => w_format wd a ++ w_format wd b
+                 end) false)
+  | BIn => match w_contains wd b a with ROk r => ROk (VBool r) | RErr _ => RErr ErrRender end
+  end.
+
+Definition neg_result (wd : world) (a : value) : res value :=
+  match w_negate wd a with ROk b => ROk b | RErr _ => RErr ErrRender end.
+
+(* what BuildMap / BuildMapWithSpreads make of evaluated map-literal entries (source order) *)
+Definition entry_flat (e : option value * value) : list value :=
+  match e with (Some k, v) => [k; v] | (None, v) => [v] end.
+
+Definition build_map_result (wd : world) (es : list (option value * value)) : res value :=
+  let spread (e : option value * value) := match fst e with None => true | Some _ => false end in
+  if existsb spread es
+  then match build_map_spreads wd (rev (map spread es)) (rev (flat_map entry_flat es)) [] with
+       | ROk (m, _) => ROk (VMap m)
+       | RErr e => RErr e
+       end
+  else match build_map_pairs wd (flat_map entry_flat es) with
+       | ROk pairs => ROk (VMap (map_of_pairs wd pairs))
+       | RErr e => RErr e
+       end.
+
+Definition s_super : str := [115;117;112;101;114]%N.
+
 Definition builtins_of_world (wd : world) : builtins :=
   {| b_get_attr := w_get_attr wd;
      b_eq := w_eq wd;
      b_test := fun name v => w_test wd name v [];
      b_filter := fun name v kws => w_filter wd name v (kw_map wd kws) no_scope;
      b_format := w_format wd;
-     b_escape := w_escape wd |}.
+     b_escape := w_escape wd;
+     b_binop := binop_result wd;
+     b_neg := neg_result wd;
+     b_subscript := subscript wd;
+     b_slice := vm_slice;
+     b_function := fun name kws => w_function wd name (kw_map wd kws) no_scope;
+     b_build_map := build_map_result wd |}.
 
 (* ---------- what the parser guarantees about the trees it hands to the compiler ----------
    parser.rs 1585-1615: break/continue only inside a for body and not across a capture
@@ -160,9 +276,21 @@ Fixpoint wf_expr (lex : bool) (e : expr) {struct e} : bool :=
   | EConst _ => true
   | EVar n => ordinary_name n
   | ELoop _ => lex
-  | EAttr e1 _ | ENot e1 | ETest e1 _ => wf_expr lex e1
-  | EAnd a b | EOr a b | EEq a b => wf_expr lex a && wf_expr lex b
+  | EAttr e1 _ | ENot e1 | ETest e1 _ | ENeg e1 => wf_expr lex e1
+  | EAnd a b | EOr a b | EEq a b | EBin _ a b => wf_expr lex a && wf_expr lex b
   | EFilter e1 _ kw => wf_expr lex e1 && forallb (fun ke => wf_expr lex (snd ke)) kw
+  | ETernary c a b => wf_expr lex c && wf_expr lex a && wf_expr lex b
+  | EAttrOpt e1 _ => wf_expr lex e1
+  | ESub _ a b => wf_expr lex a && wf_expr lex b
+  | ESlice _ e1 a b c =>
+      wf_expr lex e1 && match a with Some x => wf_expr lex x | None => true end
+      && match b with Some x => wf_expr lex x | None => true end
+      && match c with Some x => wf_expr lex x | None => true end
+  (* `super()` is not a registered function: it renders the parent block (C05 / C03 `vm` family) *)
+  | ECall name kw => negb (str_eqb name s_super) && forallb (fun ke => wf_expr lex (snd ke)) kw
+  (* array and map literals are compiled (and covered by C07's compile_always_checks, which does
+     not look at wf_expr) but compile_correct (C03) is NOT proved for them: excluded here *)
+  | EArr _ | EMap _ => false
   end.
 
 Definition wf_kws (lex : bool) (kw : list (str * expr)) : bool :=
@@ -187,3 +315,17 @@ Fixpoint wf_stmt (okn : str -> bool) (lex brk : bool) (s : stmt) {struct s} : bo
   end.
 
 Definition wf_body (okn : str -> bool) (body : list stmt) : bool := forallb (wf_stmt okn false false) body.
+
+(* the part of wf_stmt about the control structure alone -- where break / continue may stand
+   (parser.rs 1585-1615) -- with no condition on expressions, names or includes: what C07's
+   compile_always_checks needs *)
+Fixpoint brk_stmt (brk : bool) (s : stmt) {struct s} : bool :=
+  match s with
+  | SText _ | SInclude _ | SPrint _ | SAssign _ _ _ => true
+  | SIf _ body els => forallb (brk_stmt brk) body && forallb (brk_stmt brk) els
+  | SFor _ _ _ body els => forallb (brk_stmt true) body && forallb (brk_stmt brk) els
+  | SSetBlock _ _ body _ | SFilter _ _ body => forallb (brk_stmt false) body
+  | SBreak | SContinue => brk
+  end.
+
+Definition brk_body (body : list stmt) : bool := forallb (brk_stmt false) body.
